@@ -16,7 +16,7 @@ from . import refmodel as R
 from . import fingerprint as F
 from . import handlers as H1
 from .monitors import M, MonitorBug, InjectedFault
-from .gen import (make_substances, liquids, spell, rand_selector, sel_json, rect_selector)
+from .gen import (make_substances, liquids, spell, rand_selector, sel_json, rect_selector, SubSel, subslice)
 
 K = R.K
 
@@ -79,6 +79,8 @@ def ref_of(objs, r):
     o = objs[name]
     if sel is None:
         return o
+    if isinstance(sel, SubSel):
+        return sel.apply(o)
     return o[sel]
 
 
@@ -380,6 +382,14 @@ def gen_program(rng, case, focus=None, allow_infeasible=True):
         if partial is False or (partial is None and rng.random() < 0.3):
             return None, [(i, j) for i in range(p.wells.shape[0]) for j in range(p.wells.shape[1])]
         sel, idx, shape = rand_selector(rng, p)
+        if len(idx) > 1 and rng.random() < 0.2:
+            # a slice of a slice as the step's reference (the recipe must act on exactly the sub-selection)
+            with M.oracle():
+                r = subslice(rng, p, sel, idx, shape)
+            if r is not None:
+                _sl, idx2, shape2, _desc, item = r
+                M.bucket('C07/recipe/subslice_reference')
+                return SubSel(sel, item, idx2, shape2), idx2
         return sel, idx
 
     kinds = ['t_cc', 't_cp', 't_cp', 't_cp', 't_pc', 't_pp', 'remove', 'fill', 'newc', 'dilute', 'solution',
@@ -762,6 +772,23 @@ def run_recipe_case(rng, case, idx, focus=None):
         if d:
             M.violate(['C08'], 'BAKE', 'C08:prefix_bake_of_all_steps_differs_from_bake', {'name': nme, 'diff': d, 'program': pdesc})
             return
+    if not conforming:
+        # which step first departs from the direct operation?  If it is a plate step and the plate it touches is what
+        # differs (everything agreed one step earlier), the step did not act well-by-well on the addressed wells (C07)
+        for k in range(1, n + 1):
+            badn = [nme for nme, o in objects[k].items() if nme in eager_states[k] and same_state(eager_states[k][nme], o)]
+            if badn:
+                st_ = rs[k - 1]
+                refs = [st_.get('src'), st_.get('dst')] if st_['op'] == 'transfer' else [st_.get('dst')]
+                refs = [x for x in refs if isinstance(x, list)]
+                on_plate = [nme for nme in badn if is_plate(objects[k][nme]) and nme in touched(st_)]
+                kf05_zone = st_['op'] == 'fill_to' and st_['dst'][1] is not None
+                if on_plate and st_['op'] in ('transfer', 'remove', 'fill_to') and not kf05_zone:
+                    sub = any(isinstance(x[1], SubSel) for x in refs)
+                    M.violate(['C07'], 'BAKE', f'C07:recipe_step_ne_direct_operation:{st_["op"]}' + (':subslice_reference' if sub else ''),
+                              {'k': k, 'name': on_plate[0], 'diff': same_state(eager_states[k][on_plate[0]], objects[k][on_plate[0]]),
+                               'program': pdesc})
+                break
     if conforming:
         for k in range(1, n):
             for nme, o in objects[k].items():
